@@ -791,11 +791,38 @@ fn run_hand(text: &str) -> String {
     let vars_i: Vec<String> = n.iter_variable_identifiers().map(hex).collect();
     let ops: Vec<String> = n.iter_operators_mut().map(|o| op_text(o)).collect();
     let show = hex(format!("{}", n));
+    // all 24 tree-level entry points on this hand-built tree (context-free, shared, mutable on a fresh clone each)
+    let mut views: Vec<String> = vec![];
+    for t in ['v', 's', 'i', 'f', 'n', 'b', 't', 'e'] {
+        let r: Result<V, E> = match t {
+            'v' => n.eval(),
+            's' => typed(n.eval_string(), Value::String),
+            'i' => typed(n.eval_int(), Value::Int),
+            'f' => typed(n.eval_float(), Value::Float),
+            'n' => typed(n.eval_number(), Value::Float),
+            'b' => typed(n.eval_boolean(), Value::Boolean),
+            't' => typed(n.eval_tuple(), Value::Tuple),
+            _ => typed(n.eval_empty(), |_| Value::Empty),
+        };
+        touch_fmt(&r);
+        views.push(result_text(&r));
+    }
+    for t in ['v', 's', 'i', 'f', 'n', 'b', 't', 'e'] {
+        let r: Result<V, E> = entries_ro!(&ctx, 'n', t, "", Ok::<&Node<DefaultNumericTypes>, E>(&n));
+        touch_fmt(&r);
+        views.push(result_text(&r));
+    }
+    for t in ['v', 's', 'i', 'f', 'n', 'b', 't', 'e'] {
+        let mut c3 = ctx.clone();
+        let r: Result<V, E> = entries_mut!(&mut c3, 'n', t, "", Ok::<&Node<DefaultNumericTypes>, E>(&n));
+        touch_fmt(&r);
+        views.push(result_text(&r));
+    }
     format!(
-        "same={} ro={} rolog[{}] mut={} vars{{{}}} mutlog[{}] nodes[{}] ops[{}] ids[{}] vids[{}] show={}",
+        "same={} ro={} rolog[{}] mut={} vars{{{}}} mutlog[{}] nodes[{}] ops[{}] ids[{}] vids[{}] show={} views[{}]",
         same as u8, result_text(&ro), ro_log.join(","), result_text(&mt),
         vars.iter().map(|(k, v)| format!("{}={}", k, v)).collect::<Vec<_>>().join(","),
-        mt_log.join(","), nodes.join(","), ops.join(","), ids.join(","), vars_i.join(","), show
+        mt_log.join(","), nodes.join(","), ops.join(","), ids.join(","), vars_i.join(","), show, views.join("|")
     )
 }
 
